@@ -219,7 +219,67 @@ func c07Body(r *vlib.Run) int {
 			c07CatRun(r, i, fl, crng)
 		}
 	})
+	// lines just below MaxLineLength (1 MiB): together with their record label
+	// they are longer than any buffer sized after the line limit
+	if fl := fleets[1]; fl != nil {
+		for k := 0; k < r.N(1, 6); k++ {
+			c07NearMaxRun(r, k, fl, rand.New(rand.NewSource(seeds[k%len(seeds)]+int64(k))))
+		}
+	}
 	return n / 2
+}
+
+// c07NearMaxRun: every server delivers files in which a few lines are 2-300
+// bytes shorter than MaxLineLength (the server does not split them), between
+// short lines; all servers deliver at the same time.
+func c07NearMaxRun(r *vlib.Run, k int, fl *fleet, rng *rand.Rand) {
+	const M = 1024 * 1024
+	sub := fmt.Sprintf("nearmax%d", k)
+	nFiles := 2
+	for s := range fl.Servers {
+		for f := 0; f < nFiles; f++ {
+			var b bytes.Buffer
+			name := fmt.Sprintf("f%d.log", f)
+			for q := 1; q <= 60; q++ {
+				l := 40 + rng.Intn(160)
+				if q%20 == 7+s {
+					l = M - 2 - []int{0, 1, 30, 300}[rng.Intn(4)]
+				}
+				b.WriteString(c07Line(fl.Servers[s].Spec.Name, name, q, l))
+				b.WriteByte('\n')
+			}
+			fl.WriteFile(s, filepath.Join(sub, name), b.Bytes())
+		}
+	}
+	defer func() {
+		for s := range fl.Servers {
+			os.RemoveAll(filepath.Join(fl.Servers[s].Spec.Dir, sub))
+		}
+	}()
+	glob := k%2 == 0
+	filesArg := filepath.Join(sub, "f0.log") + "," + filepath.Join(sub, "f1.log")
+	if glob {
+		filesArg = filepath.Join(sub, "*.log")
+	}
+	full := append(fl.ClientArgs(), "--logger", "stdout", "--logLevel", "error", "--noColor", "--files", filesArg)
+	res, out := runPaced(vlib.Cmd{Path: r.Bin("dcat"), Args: full, Env: fl.ClientEnv(), Dir: fl.Home, Watchdog: 240 * time.Second}, pacing{Kind: "fast"}, 65536)
+	if res.TimedOut {
+		r.Inconclusive("client-watchdog")
+		return
+	}
+	ck := c07CheckOutput(out, !glob, false)
+	r.Eval(fmt.Sprintf("nearmax|%d|%v", k, glob))
+	r.Count("lines_checked", ck.remote)
+	r.Count("runs_with_lines_just_below_the_line_limit", 1)
+	if ck.err == "output does not end with a complete line" && !glob && !res.Panicked() {
+		if r.Known("c07.cmd-race-tail", "multi-command session: the client exits while a line of a later command is being printed (same root cause as c02.cmd-race)") {
+			return
+		}
+	}
+	if ck.err != "" || res.Panicked() {
+		r.Violation("output-line-invalid", map[string]interface{}{"why": ck.err, "line": ck.errLine, "servers": len(fl.Servers),
+			"scenario": "lines 2-300 bytes shorter than MaxLineLength from all servers at once", "glob": glob, "exit": res.Exit, "stderr": vlib.Trunc(string(res.Stderr), 1000)})
+	}
 }
 
 // c07DirGlobRun: files with the same base name in different directories,
